@@ -116,6 +116,18 @@ def run(ctx):
         gots.append(check(ctx, iver, allm, ans))
         ctx.tally.add("%s:%s" % (iver, gots[-1][0]))
     if ctx.model_available:
+        # everything the builder PRINTS (banner, headings with hints, colours, question lines): model vs code
+        selp = [sc for sc in scripts[nsel:] if all(core.sendable(a) and all(ord(c) < 128 for c in a) for a in sc[2])][: ctx.n(1200, 20000)]
+        nc = [len(sc[2]) % 2 == 0 for sc in selp]
+        lines = ["D\t%s\t%s\t%s" % (iver, "1" if allm else "0", "1" if n_ else "0") + "".join("\t" + enc(a) for a in ans)
+                 for (iver, allm, ans), n_ in zip(selp, nc)]
+        outp = core.run_driver(lines)
+        for (iver, allm, ans), n_, mo in zip(selp, nc, outp):
+            res = inter.ask(iver, allm, ans, no_colors=n_)
+            want = "out\t%s\t%s" % (core.esc(res["stdout"]), "result:" + core.esc(res["vector"]) if res["outcome"] == "result" else "eof")
+            ctx.count()
+            if mo != want:
+                ctx.aux("model-vs-code:interactive-stdout:%s" % iver, {"all": allm, "no_colors": n_, "answers": ans}, mo[:400], want[:400])
         sel = [(i, sc) for i, sc in enumerate(scripts) if all(core.sendable(a) and all(ord(c) < 128 for c in a) for a in sc[2])]
         lines = ["I\t%s\t%s" % (iver, "1" if allm else "0") + "".join("\t" + enc(a) for a in ans) for _, (iver, allm, ans) in sel]
         out = core.run_driver(lines)
